@@ -171,7 +171,13 @@ fn pos_arg(r: &mut Rng) -> (f64, &'static str) {
         2 => (next_down(1.0), "one-ulp"),
         3 => ((r.range(1, 40) as f64) / 8.0, "eighths"),
         4 => (r.unit() * 100.0 + 0.01, "0.01..100"),
-        5 => ((2.0f64).powi(r.range(-30, 30) as i32), "pow2"),
+        5 => {
+            if r.chance(1, 3) {
+                ((2.0f64).powi(r.range(-980, 980) as i32) * (1.0 + r.unit() * 0.999), "far")
+            } else {
+                ((2.0f64).powi(r.range(-30, 30) as i32), "pow2")
+            }
+        }
         // the series is used for -1.71 < x < 1.72 with x = -ln v: the switches are at v = e^1.71 and v = e^-1.72
         6 => (if r.chance(1, 2) { (1.71f64).exp() } else { (-1.72f64).exp() } * (1.0 + (r.unit() - 0.5) * 1e-3), "near-switch"),
         _ => (r.unit() * 3.0 + 0.05, "0.05..3"),
@@ -235,7 +241,8 @@ pub fn gen_case(campaign: &str, r: &mut Rng) -> Case {
                 if r.chance(1, 2) {
                     k = -k;
                 }
-                x = (2.0f64).powi(k) * if r.chance(1, 2) { -1.0 } else { 1.0 };
+                // half of the time not a power of two (terms then grow by at most 2^i, still ordinary)
+                x = (2.0f64).powi(k) * if r.chance(1, 2) { -1.0 } else { 1.0 } * if r.chance(1, 2) { 1.0 + r.unit() * 0.999 } else { 1.0 };
                 cx = Cls::Huge;
                 p = (0..p.len())
                     .map(|i| if (k as i64 * i as i64).abs() > 960 || r.chance(1, 4) { 0.0 } else { moderate(r).0 * (2.0f64).powi(-k * i as i32) })
@@ -502,7 +509,7 @@ pub fn gen_case(campaign: &str, r: &mut Rng) -> Case {
             let mut c = Case::new("opsraw", tag).set("op", Val::S(op.into())).set("p", Val::L(p.clone()));
             let mut cl = format!("{op}:{tag}");
             match op {
-                "mul" | "mulassign" => {
+                "mul" | "mulassign" | "refmul" => {
                     let (s, cs) = match r.below(6) {
                         0 => (0.0, "zero"),
                         1 => (-1.0, "minus-one"),
@@ -513,7 +520,7 @@ pub fn gen_case(campaign: &str, r: &mut Rng) -> Case {
                     cl.push_str(&format!(":{cs}"));
                     c = c.set("s", Val::F(s));
                 }
-                "neg" => {}
+                "neg" | "refneg" => {}
                 _ => {
                     let mut q = piece(r, tag);
                     if tag == "pn" {
@@ -527,6 +534,26 @@ pub fn gen_case(campaign: &str, r: &mut Rng) -> Case {
             }
             let mut c = c.cls(&cl);
             c.nontrivial = p.iter().any(|v| *v != 0.0);
+            c
+        }
+        "merge-probe" => {
+            let mut tag = "q4";
+            for _ in 0..200 {
+                tag = *r.pick(ALL_TAGS);
+                if crate::run::merge_exists(tag) {
+                    break;
+                }
+            }
+            if !crate::run::merge_exists(tag) {
+                tag = "q4";
+            }
+            let nf = size_capped(r, 1, 6, 200);
+            let ng = size_capped(r, 1, 6, 200);
+            let f = pw_pieces(r, tag, nf, is_logish(tag), false);
+            let g = pw_pieces(r, tag, ng, is_logish(tag), false);
+            let op = if r.chance(1, 2) { "add" } else { "sub" };
+            let mut c = Case::new("mergeraw", tag).set("op", Val::S(op.into())).set("f", Val::Pw(f)).set("g", Val::Pw(g)).cls(&format!("{op}:{tag}:nf={}:ng={}", ncls(nf, 3), ncls(ng, 3)));
+            c.nontrivial = nf >= 2 && ng >= 2;
             c
         }
         "pwops-probe" => {
@@ -686,7 +713,7 @@ pub fn gen_case(campaign: &str, r: &mut Rng) -> Case {
                 }
             };
             if pwlevel {
-                let n = r.below(5) as usize;
+                let n = size_capped(r, 0, 5, 300);
                 let pw = pw_pieces(r, tag, n, false, false);
                 let mut pw2 = pw.clone();
                 let kind = r.below(5);
